@@ -12,8 +12,9 @@ whose raw start is within 32 of `stop_` gets `start = 0` and sieves `[0, 2^64-1]
 * **`parallel_count_wrap_witness`, `parallel_count_wrap_miscount`**: the bound is needed and SHARP: with `numThreads_ = 27 709 468`,
   `start = 18422941821390992413`, `stop = 2^64-1` the last of the 27 709 468 tasks is `[0, 2^64-1]` and the model's count is
   `π-count[start, stop] + π-count[0, 2^64-1]`.  The REAL `idealNumThreads / getThreadDistance / align` (harness op `psintervals`, which writes `numThreads_`
-  directly) return the same intervals: `… 18446744072850558093:18446744073709551615 0:18446744073709551615`.  Not reachable through the public API
-  (the clamp), not executable (27.7 million `std::async` tasks, the last one sieving the whole 64-bit range): a LATENT defect, not a failing input of C18.
+  directly and re-types the two loop statements ParallelSieve.cpp:135-136 — those are pinned by the source-text obligation and by the oracle stream `ps-count`) give the
+  same intervals: `… 18446744072850558093:18446744073709551615 0:18446744073709551615`.  Not reachable through the public API (the clamp), not executable
+  (27.7 million `std::async` tasks, the last one sieving the whole 64-bit range): a LATENT defect, not a failing input of C18.
   Patch proposal: notes/wp-close3.md.
 Only property theorems, examples and the axiom audit live here.
 -/
